@@ -426,6 +426,13 @@ func report(cc *checkCfg, tier string, seed int, res *results, ran []*harnessCfg
 		}
 	}
 	sort.Strings(stubs)
+	if os.Getenv("VERIF_VERBOSE") != "" {
+		for _, st := range stubs {
+			if strings.HasPrefix(st, "CONCRETIZE") {
+				fmt.Fprintln(os.Stderr, "  ", st)
+			}
+		}
+	}
 	perH := map[string]any{}
 	var bounds []string
 	bounds = append(bounds, cc.Bounds...)
